@@ -48,9 +48,13 @@ ASSUMPTIONS = [
     'well-formed files and missing files',
     'Python recursion limit: programs are run with maxStatements=200 and the recursion limit raised, so RecursionError (DESIGN section 6) '
     'cannot occur',
+    'host functions that write options["globals"] while they are evaluated as arguments (stream rebind, host part) and partial histories with '
+    'more than ~40 statements or arraySort comparators (stream partialhist, scale part) are checked on the implementation only, against closed '
+    'forms: the Lean host has no function that writes the globals object other than systemGlobalSet, no arraySort, and the model runs use a '
+    'statement budget of 200',
 ]
-TRUSTED = ['reference interpreter of scoping / calling convention / library injection (class Ref, with its own systemGlobalGet/Set and its own include: an included script runs at top level) and the closed-form '
-           'oracles (expected_binding, the include-scope matrix scope_cell_case, the include-position metamorphic relation, the source-spelling '
+TRUSTED = ['reference interpreter of scoping / calling convention / library injection (class Ref, with its own systemGlobalGet/Set, its own systemPartial [an immutable snapshot of the bound arguments per partial value] and its own include: an included script runs at top level; arguments are evaluated left to right BEFORE the callee is looked up) and the closed-form '
+           'oracles (expected_binding, the include-scope matrix scope_cell_case, the callee-rebinding matrix rebind_case / oracle_rebind_host, the partial-history expectation ph_build, the include-position metamorphic relation, the source-spelling '
            'renderer Speller / header_text whose texts are expected to mean the structured program they were rendered from) in '
            'harness/props/C04.py; the library functions themselves, the operators and value_string are shared '
            'with the implementation (they belong to C03/C13/C15)']
@@ -169,14 +173,29 @@ class Ref:
             return None
         return self.g[args[0]] if args[0] in self.g else (args[1] if len(args) == 2 else None)
 
-    def call_value(self, fv, args):
-        """the call wrapper (C05's subject, reproduced): a failing host function yields its failure value / null"""
+    def partial(self, args):
+        # systemPartial(func, args...): a NEW function value that calls `func` with a private, immutable snapshot of the bound arguments
+        # followed by the arguments of the call; neither `func` (possibly itself a partial) nor any other partial derived from it is
+        # changed by that; not a function / no bound argument: failure (null)
+        if len(args) < 2 or not callable(args[0]):
+            return None
+        func, bound = args[0], tuple(args[1:])
+        return lambda extra, unused_options: self.apply(func, [*bound, *extra])
+
+    def apply(self, fv, args):
+        """call of a function value WITHOUT the failure handling of the call wrapper (what a partial / a call-back does)"""
         if fv is self.library.SCRIPT_FUNCTIONS['systemGlobalSet']:
             return self.global_set(list(args))
         if fv is self.library.SCRIPT_FUNCTIONS['systemGlobalGet']:
             return self.global_get(list(args))
+        if fv is self.library.SCRIPT_FUNCTIONS['systemPartial']:
+            return self.partial(list(args))
+        return fv(args, self.options)
+
+    def call_value(self, fv, args):
+        """the call wrapper (C05's subject, reproduced): a failing host function yields its failure value / null"""
         try:
-            return fv(args, self.options)
+            return self.apply(fv, args)
         except (self.runtime.BareScriptRuntimeError, fw.impl()['parser'].BareScriptParserError):
             raise
         except Exception as exc:  # pylint: disable=broad-except
@@ -1288,6 +1307,428 @@ def header_cases(rng, n_random):
         yield params, rest, blanks, rng.random() < 0.2, 'random'
 
 
+# ---------------------------------------------------------------------------------------------------------------------
+# Function VALUES with a history (R8C04-m2 family).  "passing functions as values and through systemPartial/arraySort callbacks":
+# a partial application is a value like any other - it can be called, called again, be the base of several further partials,
+# be an arraySort / arrayIndexOf call-back, in any order.  Whatever happened to it before, calling it binds the parameters of the
+# script function positionally to (its bound arguments, in derivation order) + (the arguments of THIS call).  A history is a list
+# of operations over holder variables; the expectation is the closed binding formula applied to symbolically tracked, immutable
+# bound-argument tuples (never the library's own systemPartial).
+# ---------------------------------------------------------------------------------------------------------------------
+
+SCALE_SIZES = [0, 1, 2, 9, 10, 11, 16, 17, 64, 65, 100, 101, 128, 129, 256, 1000]
+PH_MAX_STATEMENTS = 6000
+PH_PATHS = ['direct', 'variable', 'parameter', 'indexof', 'sort']
+
+
+def ph_lit(v):
+    return var('null') if v is None else lit(v)
+
+
+def ph_value(v):
+    return float(v) if isinstance(v, int) and not isinstance(v, bool) else v
+
+
+def ph_build(hist):
+    """hist = {'params': [...], 'rest': bool, 'ops': [...]} with ops
+         ['derive', holder, base | None (= the script function ff), [bound argument literals]]
+         ['call', holder, path, [argument literals]]
+       -> (structured program, expected log as a list of SEGMENTS; a segment is a list of alternative line lists - arraySort may offer
+       its two elements in either order)"""
+    params, rest = hist['params'], hist['rest']
+    body = []
+    for p in dict.fromkeys(params):
+        body += probe_stmts(p)
+    body += [log_stmt(string('-')), {'k': 'ret', 'e': num(0)}]
+    prog = [fdef('ff', params, body, rest)]
+    for k in range(4):
+        names = ['a', 'b', 'c'][:k]
+        prog.append(fdef(f'via{k}', ['cb'] + names, [{'k': 'ret', 'e': call('cb', *[var(n) for n in names])}]))
+    bound = {}
+    segments = []
+
+    def seg(args):
+        got = expected_binding(params, rest, [ph_value(a) for a in args])
+        out = []
+        for p in dict.fromkeys(params):
+            out += probe_lines(got[p])
+        return out + ['-']
+
+    for op in hist['ops']:
+        if op[0] == 'derive':
+            _, holder, base, args = op
+            prog.append(asg(holder, call('systemPartial', var('ff' if base is None else base), *[ph_lit(a) for a in args])))
+            bound[holder] = (() if base is None else bound[base]) + tuple(args)
+        else:
+            _, holder, path, args = op
+            pre = bound[holder]
+            if path == 'direct':
+                prog.append(asg('res', call(holder, *[ph_lit(a) for a in args])))
+                segments.append([seg(pre + tuple(args))])
+            elif path == 'variable':
+                prog += [asg('al', var(holder)), asg('res', call('al', *[ph_lit(a) for a in args]))]
+                segments.append([seg(pre + tuple(args))])
+            elif path == 'parameter':
+                prog.append(asg('res', call(f'via{len(args)}', var(holder), *[ph_lit(a) for a in args])))
+                segments.append([seg(pre + tuple(args))])
+            elif path == 'indexof':                  # ff returns 0 (falsy): every element is offered, one argument each
+                prog.append(asg('res', call('arrayIndexOf', call('arrayNew', *[ph_lit(a) for a in args]), var(holder))))
+                segments.append([[ln for a in args for ln in seg(pre + (a,))]])
+            else:                                    # arraySort of two elements: one comparison, either order
+                a, b = args
+                prog.append(asg('res', call('arraySort', call('arrayNew', ph_lit(a), ph_lit(b)), var(holder))))
+                segments.append([seg(pre + (a, b)), seg(pre + (b, a))])
+    return progen.assign_fids(prog), segments
+
+
+def ph_log_matches(log, segments):
+    pos = 0
+    for alts in segments:
+        n = len(alts[0])
+        if log[pos:pos + n] not in alts:
+            return False
+        pos += n
+    return pos == len(log)
+
+
+def check_partial_history(hist, impl=None):
+    prog, segments = ph_build(hist)
+    if impl is None:
+        impl = run_text('\n'.join(progen.render(prog)), {}, max_statements=PH_MAX_STATEMENTS)
+    if 'error' in impl or 'hostexc' in impl or not ph_log_matches(impl.get('log', []), segments):
+        pos, first = 0, None
+        for i, alts in enumerate(segments):                         # the first call that bound something else (for the report)
+            n = len(alts[0])
+            if impl.get('log', [])[pos:pos + n] not in alts:
+                first = {'call': i, 'want': alts[0][:12], 'got': impl.get('log', [])[pos:pos + n][:12]}
+                break
+            pos += n
+        return [('partial-binds-own-arguments', first and first['want'],
+                 {k: impl[k] for k in ('error', 'hostexc') if k in impl} or first)]
+    return []
+
+
+def ph_args(rng, n, counter):
+    out = []
+    for _ in range(n):
+        counter[0] += 1
+        r = rng.random()
+        out.append(None if r < 0.05 else f's{counter[0]}' if r < 0.15 else counter[0])
+    return out
+
+
+def ph_random(rng, allow_sort):
+    """a random history: 2-5 holders derived from ff / from one another (also a holder re-derived from ITSELF under the same name),
+    calls of any holder by any path interleaved with the derivations"""
+    nparams = rng.randint(0, 3)
+    params = ['p', 'q', 'r'][:nparams]
+    if nparams >= 2 and rng.random() < 0.05:
+        params[-1] = 'p'
+    hist = {'params': params, 'rest': nparams > 0 and rng.random() < 0.5, 'ops': []}
+    holders, counter, tags = [], [0], set()
+    for _ in range(rng.randint(4, 12)):
+        if not holders or rng.random() < 0.4:
+            base = rng.choice(holders) if holders and rng.random() < 0.75 else None
+            if base is not None and rng.random() < 0.2:
+                holder = base                                         # pa = systemPartial(pa, ...): the old value lives on in its children
+                tags.add('rederive-same-name')
+            else:
+                holder = rng.choice(['pa', 'pb', 'pc', 'pd', 'pe'])
+            if base is not None:
+                tags.add('partial-of-partial')
+                if any(op[0] == 'derive' and op[2] == base for op in hist['ops']):
+                    tags.add('siblings')
+            hist['ops'].append(['derive', holder, base, ph_args(rng, rng.choice([1, 1, 1, 2, 2, 3, 5]), counter)])
+            if holder not in holders:
+                holders.append(holder)
+        else:
+            holder = rng.choice(holders)
+            path = rng.choice(PH_PATHS if allow_sort else PH_PATHS[:-1])
+            n = 2 if path == 'sort' else rng.randint(1, 3) if path == 'indexof' else rng.randint(0, 3)
+            if any(op[0] == 'derive' and op[2] == holder for op in hist['ops']):
+                tags.add('base-called-after-derivation')
+            if any(op[0] == 'call' and op[1] == holder for op in hist['ops']):
+                tags.add('called-again')
+            tags.add('path:' + path)
+            hist['ops'].append(['call', holder, path, ph_args(rng, n, counter)])
+    return hist, tags
+
+
+def ph_directed():
+    """-> (tag, history): the aliasing families x SCALE_SIZES"""
+    shapes = [([], False), (['p'], False), (['p'], True), (['p', 'q'], True), (['p', 'q', 'r'], False), (['p', 'q', 'r'], True)]
+    seq = lambda start, n: list(range(start, start + n))  # noqa: E731
+    for params, rest in shapes:
+        # A. the base is called before and after every derivation, by every path; the children as well
+        for path in PH_PATHS:
+            args = [901, 902] if path == 'sort' else [901] if path == 'indexof' else [901, 902]
+            call_ = lambda h: ['call', h, path, args]  # noqa: E731,B023
+            yield 'base-reuse:' + path, {'params': params, 'rest': rest, 'ops': [
+                ['derive', 'pa', None, [1]], call_('pa'), ['derive', 'pb', 'pa', [2]], call_('pa'), call_('pb'),
+                ['derive', 'pc', 'pa', [3, 4, 5]], call_('pa'), call_('pb'), call_('pc'), ['derive', 'pd', 'pb', [6]], call_('pb'), call_('pa'),
+                call_('pd'), ['derive', 'pa', 'pa', [7]], call_('pa'), call_('pb'), call_('pc')]}
+    for params, rest in shapes[2:4]:
+        for n in SCALE_SIZES:
+            # B. n siblings derived from one base (one variable re-used for all but the first), the base called afterwards
+            ops = [['derive', 'pa', None, [1]]]
+            for i in range(n):
+                ops.append(['derive', 'pb' if i == 0 else 'pc', 'pa', [100 + i]])
+            ops += [['call', 'pa', 'direct', [901, 902]]] + ([['call', 'pb', 'direct', [903]]] if n >= 1 else []) \
+                + ([['call', 'pc', 'parameter', [904]]] if n >= 2 else []) + [['call', 'pa', 'indexof', [905, 906]]]
+            yield f'siblings:{n}', {'params': params, 'rest': rest, 'ops': ops}
+            # C. n bound arguments in one derivation, then a child with n more
+            if n >= 1:
+                yield f'bound-arguments:{n}', {'params': params, 'rest': rest, 'ops': [
+                    ['derive', 'pa', None, seq(1, n)], ['call', 'pa', 'direct', [901]], ['derive', 'pb', 'pa', seq(2001, n)],
+                    ['call', 'pa', 'direct', [902]], ['call', 'pb', 'variable', [903]], ['call', 'pa', 'parameter', [904, 905]]]}
+            # D. a chain of depth n through ONE re-assigned variable, an alias of the first and of the middle link kept and called last
+            if n >= 1:
+                ops = [['derive', 'pa', None, [1]], ['derive', 'pb', 'pa', [2]]]
+                for i in range(n):
+                    ops.append(['derive', 'pb', 'pb', [10 + i]])
+                    if i == n // 2:
+                        ops.append(['derive', 'pc', 'pb', [5000]])
+                ops += [['call', 'pb', 'direct', [901]], ['call', 'pc', 'direct', [902]], ['call', 'pa', 'direct', [903]], ['call', 'pb', 'direct', [904]]]
+                yield f'chain:{n}', {'params': params, 'rest': rest, 'ops': ops}
+
+
+# ---------------------------------------------------------------------------------------------------------------------
+# The callee of a call is what its name is bound to WHEN THE CALL IS MADE (R7C04-m1 family).  "a script-defined function replaces a
+# library function of the same name", "a name bound in locals or globals always wins over a built-in": the arguments of a call are
+# ordinary expressions - they run script functions that call systemGlobalSet, include scripts (which define functions and assign
+# globals at THEIR top level) or host functions that write options['globals'].  After the arguments have been evaluated the name
+# may be bound to something else than before; the call goes to that.  Exhaustive matrix, closed-form expectation.
+# ---------------------------------------------------------------------------------------------------------------------
+
+RB_BEFORE = ['script', 'library', 'unbound', 'host-function', 'host-value', 'host-null']
+RB_ACTIONS = ['none', 'gset-script', 'gset-null', 'gset-value', 'gset-lib', 'gset-partial', 'include-function', 'include-assign']
+RB_SITES = ['top', 'function', 'local-wins', 'second-arg', 'nested-arg', 'return', 'twice', 'callback']
+
+
+def rebind_cells():
+    for before in RB_BEFORE:
+        for action in RB_ACTIONS:
+            for site in RB_SITES:
+                yield [before, action, site]
+
+
+def rb_marker(tag):
+    """function TAG-named(v, w): logs 'tag:v:w', returns tag"""
+    return [log_stmt(wf_binary('+', wf_binary('+', wf_binary('+', string(tag + ':'), var('v')), string(':')), var('w'))),
+            {'k': 'ret', 'e': string(tag)}]
+
+
+def rb_outcome(binding, name, args):
+    """what a call of `name` bound to `binding` does with the argument values -> (log lines, result) or (None, error text)"""
+    vs = fw.impl()['value'].value_string
+    a = list(args) + [None, None]
+    if isinstance(binding, tuple):                                   # ('script', tag)
+        return [f'{binding[1]}:{vs(a[0])}:{vs(a[1])}'], binding[1]
+    if binding == 'partial':                                         # systemPartial(nw, 'b')
+        return [f'new:b:{vs(a[0])}'], 'new'
+    if binding == 'arrayNew':
+        return [], list(args)
+    if binding == 'value':
+        return [], None                                              # a bound non-function: the call yields null
+    return None, f'Undefined function "{name}"'                      # unbound / bound to null
+
+
+def rebind_case(cell):
+    """-> (structured program, files, host globals, expected outcome {'log', 'error'?, 'res'?, 'result'?})"""
+    before, action, site = cell
+    name = {'script': 'fa', 'library': 'arrayNew'}.get(before, 'zz')
+    host = {'host-function': {'zz': {'$lib': 'arrayNew'}}, 'host-value': {'zz': 7}, 'host-null': {'zz': None}}.get(before, {})
+    b_before = {'script': ('script', 'old'), 'library': 'arrayNew', 'host-function': 'arrayNew', 'host-value': 'value'}.get(before, 'null')
+    files = {'def.bare': [fdef(name, ['v', 'w'], rb_marker('inc'))], 'asg.bare': [asg(name, var('nw'))]}
+    prog = [fdef('nw', ['v', 'w'], rb_marker('new')), fdef('n2', ['v', 'w'], rb_marker('two')), fdef('lc', ['v', 'w'], rb_marker('loc'))]
+    if before == 'script':
+        prog.append(fdef(name, ['v', 'w'], rb_marker('old')))
+    act = {'none': [], 'gset-script': [asg(None, call('systemGlobalSet', string(name), var('nw')))],
+           'gset-null': [asg(None, call('systemGlobalSet', string(name), var('null')))],
+           'gset-value': [asg(None, call('systemGlobalSet', string(name), num(5)))],
+           'gset-lib': [asg(None, call('systemGlobalSet', string(name), var('arrayLength' if name == 'arrayNew' else 'arrayNew')))],
+           'gset-partial': [asg(None, call('systemGlobalSet', string(name), call('systemPartial', var('nw'), string('b'))))],
+           'include-function': [{'k': 'include', 'includes': [{'url': 'def.bare'}]}],
+           'include-assign': [{'k': 'include', 'includes': [{'url': 'asg.bare'}]}]}[action]
+    b_global = rb_after_global(action, b_before)          # what the global `name` is bound to once swap() has run
+    prog.append(fdef('swap', [], [log_stmt(string('swap'))] + act + [{'k': 'ret', 'e': string('x')}]))
+    prog.append(fdef('swap2', [], [log_stmt(string('swap2')), asg(None, call('systemGlobalSet', string(name), var('n2'))), {'k': 'ret', 'e': string('y')}]))
+    want_log = ['swap']
+    args_e, args_v = [call('swap')], ['x']
+    if site == 'second-arg':
+        args_e, args_v = [string('a'), call('swap')], ['a', 'x']
+    elif site == 'nested-arg':
+        args_e, args_v = [wf_binary('+', string('n'), call('swap'))], ['nx']
+    elif site == 'twice':
+        args_e, args_v = [call('swap'), call('swap2')], ['x', 'y']
+        want_log.append('swap2')
+        b_global = ('script', 'two')                        # the later rebinding wins
+    the_call = call(name, *args_e)
+    # inside main(name) the parameter is the binding, whatever the arguments do to the global
+    log2, res = rb_outcome(('script', 'loc') if site == 'local-wins' else b_global, name, args_v)
+    want = {}
+    if log2 is None:
+        want = {'log': want_log, 'error': res}
+    else:
+        want_log += log2
+        if site == 'return':
+            want = {'log': want_log, 'result': progen.value_to_wire(res)}
+        else:
+            if site == 'callback':
+                want_log += probe_lines(res)
+                res = 0.0
+            want_log += probe_lines(res)
+            # afterwards the name stays bound to what the arguments made it (control: a second, plain call)
+            log3, res3 = rb_outcome(b_global, name, ['k'])
+            if log3 is None:
+                want = {'log': want_log, 'error': res3, 'res': progen.value_to_wire(res)}
+            else:
+                want = {'log': want_log + log3 + probe_lines(res3), 'res': progen.value_to_wire(res)}
+    if site == 'return':
+        prog.append({'k': 'ret', 'e': the_call})
+    else:
+        if site in ('top', 'second-arg', 'nested-arg', 'twice'):
+            prog.append(asg('res', the_call))
+        elif site == 'function':
+            prog += [fdef('main', [], [asg('r', the_call), {'k': 'ret', 'e': var('r')}]), asg('res', call('main'))]
+        elif site == 'local-wins':
+            prog += [fdef('main', [name], [asg('r', the_call), {'k': 'ret', 'e': var('r')}]), asg('res', call('main', var('lc')))]
+        else:
+            prog += [fdef('pred', ['e'], [asg('r', the_call)] + probe_stmts('r') + [{'k': 'ret', 'e': var('true')}]),
+                     asg('res', call('arrayIndexOf', call('arrayNew', num(1)), var('pred')))]
+        prog += probe_stmts('res') + [asg('res2', call(name, string('k')))] + probe_stmts('res2')
+    return progen.assign_fids(prog), files, host, want
+
+
+def rb_after_global(action, b_before):
+    return {'none': b_before, 'gset-script': ('script', 'new'), 'gset-null': 'null', 'gset-value': 'value', 'gset-lib': 'arrayNew',
+            'gset-partial': 'partial', 'include-function': ('script', 'inc'), 'include-assign': ('script', 'new')}[action]
+
+
+def check_rebind_outcome(impl, want):
+    final = dict((k, v) for k, v in impl.get('globals', []))
+    got = {'log': impl.get('log')}
+    for k in ('error', 'hostexc'):
+        if k in impl:
+            got[k] = impl[k]
+    if 'res' in want:
+        got['res'] = final.get('res', '<absent>')
+    if 'result' in want:
+        got['result'] = impl.get('result', '<absent>')
+    return [] if got == want else [('callee-bound-at-call-time', want, got)]
+
+
+def check_rebind_cell(cell):
+    prog, files, host, want = rebind_case(cell)
+    return check_rebind_outcome(run_impl(parse('\n'.join(progen.render(prog))), host, files=files), want)
+
+
+def oracle_rebind_host(name, mode, before, after):
+    """implementation only (the Lean host has no host function that writes the globals object): a HOST function `register` used as the
+    first argument of `name(register(), 2)` rebinds globals[name]; mode: the call is a script's top-level statement / stands in a script
+    function / is an expression evaluated with the built-in expression functions enabled (without / with a locals dictionary)"""
+    mods = fw.impl()
+    runtime, library, parser = mods['runtime'], mods['library'], mods['parser']
+
+    def marker(tag):
+        return lambda args, unused_options: [tag, list(args)]
+
+    def register(unused_args, options):
+        g = options['globals']
+        if after == 'function':
+            g[name] = marker('B')
+        elif after == 'deleted':
+            g.pop(name, None)
+        elif after == 'null':
+            g[name] = None
+        else:
+            g[name] = 5
+        return 1.0
+    g = {'register': register}
+    if before != 'unbound':
+        g[name] = {'function': marker('A'), 'value': 5, 'null': None}[before]
+    expression = mode.startswith('expression')
+    if after == 'function':
+        want = {'value': ['B', [1.0, 2.0]]}
+    elif after == 'value':
+        want = {'value': None}
+    elif after == 'deleted' and expression and name in library.EXPRESSION_FUNCTIONS:
+        # no longer bound in locals or globals when the call is made: the built-in is used
+        if name in EXPR_SKIP_VALUE:
+            return []
+        try:
+            want = {'value': library.EXPRESSION_FUNCTIONS[name]([1.0, 2.0], {'globals': {}})}
+        except Exception as exc:  # pylint: disable=broad-except
+            want = {'value': exc.return_value if isinstance(exc, mods['value'].ValueArgsError) else None}
+    else:
+        want = {'error': f'Undefined function "{name}"'}
+    try:
+        if expression:
+            expr = parser.parse_expression(f'{name}(register(), 2)')
+            got = {'value': runtime.evaluate_expression(expr, {'globals': g}, {'other': 1} if mode == 'expression-locals' else None, True)}
+        else:
+            text = f'res = {name}(register(), 2)\n' if mode == 'script-top' else \
+                f'function main(other):\n    r = {name}(register(), 2)\n    return r\nendfunction\nres = main(1)\n'
+            runtime.execute_script(parser.parse_script(text), {'globals': g, 'maxStatements': 100})
+            got = {'value': g.get('res')}
+    except runtime.BareScriptRuntimeError as exc:
+        got = {'error': str(exc)}
+    except Exception as exc:  # pylint: disable=broad-except
+        got = {'hostexc': type(exc).__name__ + ': ' + str(exc)[:100]}
+    if got != want:
+        return [('callee-bound-at-call-time:host', want, progen.value_to_wire(got.get('value')) if 'value' in got and callable(got['value']) else got)]
+    return []
+
+
+def rebind_host_cases():
+    mods = fw.impl()
+    for name in sorted(mods['library'].EXPRESSION_FUNCTIONS):
+        for mode in ('expression', 'expression-locals'):
+            for before in ('unbound', 'function', 'value', 'null'):
+                for after in ('function', 'deleted', 'null', 'value'):
+                    yield name, mode, before, after
+    for name in ('zz', 'arrayNew', 'systemPartial', 'max'):
+        for mode in ('script-top', 'script-function'):
+            for before in ('unbound', 'function', 'value', 'null'):
+                for after in ('function', 'deleted', 'null', 'value'):
+                    yield name, mode, before, after
+
+
+class NestGen(IncludeGen):
+    """IncludeGen + (1) arguments that are themselves CALLS of script functions (any function callable from the current scope; their bodies
+    log, assign, call systemGlobalSet, include scripts - the included scripts define fa, fb, ... again), (2) script functions that REBIND
+    function names: systemGlobalSet of a function name / a library name to another function value, a partial, arrayNew, null or a
+    number; so a call's callee may be rebound while its own arguments are evaluated, between two calls of one call site, or inside a
+    call-back"""
+
+    def __init__(self, rng, allow_sort=False):
+        super().__init__(rng, allow_sort)
+        self.cur_rank = 0
+        self.nest = 0
+
+    def arg(self, scope, fn_rank):
+        rank = min(self.cur_rank, len(self.funcs))
+        if rank > 0 and self.nest < 2 and self.rng.random() < 0.3:
+            self.tags.add('call-as-argument')
+            ix = self.rng.randrange(rank)
+            self.nest += 1
+            e = call(self.funcs[ix][0], *[self.arg(scope, 0) for _ in range(self.rng.randint(0, 2))])
+            self.nest -= 1
+            return e
+        return super().arg(scope, fn_rank)
+
+    def scope_stmts(self, scope, rank, in_func, params=(), rest=False):
+        self.cur_rank = rank
+        out = super().scope_stmts(scope, rank, in_func, params, rest)
+        if self.rng.random() < (0.45 if in_func else 0.15):
+            self.tags.add('rebinds-function-name')
+            target = self.rng.choice(FN_NAMES + [f[0] for f in self.funcs] + ['arrayNew'])
+            r = self.rng.random()
+            value_ = self.fn_value(rank) if r < 0.7 else var('null') if r < 0.8 else num(5) if r < 0.9 else var('arrayNew')
+            out.insert(self.rng.randint(0, len(out)), asg(None, call('systemGlobalSet', string(target), value_)))
+        return out
+
+
 
 # ---------------------------------------------------------------------------------------------------------------------
 # Streams
@@ -1791,6 +2232,96 @@ def stream_handbuilt(ctx):
     st.exhaustive = True
 
 
+def stream_partialhist(ctx):
+    st = ctx.stream('partialhist', 'function values with a HISTORY (aliasing): holders derived by systemPartial from the script function ff (0-3 '
+                                   'parameters, optional `...`) and from one another - several children of one base, a holder re-derived from '
+                                   'itself under its own name, chains - and called by every path (direct, through a variable, through a '
+                                   'parameter of another function, arrayIndexOf predicate, arraySort comparator [implementation only]) BEFORE and '
+                                   'AFTER they served as the base of other partials, and repeatedly; directed families x SCALE: n siblings of one '
+                                   'base, n bound arguments per derivation, chain depth n for n in 0,1,2,9,10,11,16,17,64,65,100,101,128,129,256,1000 '
+                                   '(implementation only above 17: the statement budget of the model runs is 200); random histories of 4-12 '
+                                   'operations; every call must log the closed binding formula applied to (bound arguments of THAT holder in '
+                                   'derivation order + the call\'s arguments); small histories also against the Lean machine and the reference; '
+                                   'non-trivial = at least one parameter and a holder that is called after it was used as a base')
+    cases = []
+    for tag, hist in ph_directed():
+        cases.append((hist, {tag.split(':')[0], 'directed'} | ({'scale:' + tag.split(':')[1]} if tag.split(':')[1].isdigit() else {'path:' + tag.split(':')[1]})))
+    rng = ctx.rng('partialhist')
+    for i in range(ctx.scale(400, 6000)):
+        hist, tags = ph_random(rng, allow_sort=(i % 4 == 3))
+        cases.append((hist, tags | {'random'}))
+    built = [ph_build(hist) for hist, _ in cases]
+    small = [len(prog) <= 40 and not any(op[0] == 'call' and op[2] == 'sort' for op in hist['ops']) for (hist, _), (prog, _) in zip(cases, built)]
+    resps = iter(ctx.driver.batch([exec_request(prog, {}) for (prog, _), m in zip(built, small) if m]))
+    failed = set()
+    for (hist, tags), (prog, _), m in zip(cases, built, small):
+        text = '\n'.join(progen.render(prog))
+        family = next((t for t in tags if t in ('siblings', 'bound-arguments', 'chain')), None) if 'directed' in tags else None
+        if family in failed:
+            # a smaller size of this scale family already is a witness; an implementation that is wrong here may need memory / time that
+            # grows with the size (accumulating argument lists), so the larger sizes are not run (the model response is consumed)
+            if m:
+                next(resps)
+            continue
+        impl = run_text(text, {}, max_statements=MAX_STATEMENTS if m else PH_MAX_STATEMENTS)
+        reused = any(op[0] == 'call' and any(d[0] == 'derive' and d[2] == op[1] for d in hist['ops'][:j]) for j, op in enumerate(hist['ops']))
+        st.case([hist], nontrivial=bool(hist['params']) and reused, tags=sorted(tags) + [f"params{len(hist['params'])}" + ('...' if hist['rest'] else '')])
+        inp = {'kind': 'partial-history', 'hist': hist, 'text': text, 'globals': {}}
+        if m:
+            ctx.compare('partialhist', inp, impl, progen.canon_model_out(next(resps)))
+            witness_all(ctx, 'program', {'text': text, 'globals': {}, 'explicit_flags': False, 'prog': prog, 'fprogs': None}, oracle_run(prog, {}, impl))
+        bad = check_partial_history(hist, impl)
+        witness_all(ctx, 'partial-history', inp, bad)
+        if bad and family is not None:
+            failed.add(family)
+    st.exhaustive = False
+
+
+def stream_rebind(ctx):
+    st = ctx.stream('rebind', 'the callee is what its name is bound to when the call is MADE - exhaustive matrix: the name is {a script function, a '
+                              'library function, unbound, a host-supplied function / number / null} before x the evaluation of the call\'s own '
+                              'argument (a script function swap()) {does nothing, systemGlobalSet(name, script function / null / number / library '
+                              'function / partial), includes a script that defines `function name`, includes a script whose top level assigns '
+                              'name} x the call stands {at top level, in a script function, in a script function that binds the name as a '
+                              'parameter [the local wins, whatever happens to the global], with the rebinding argument second, nested in an '
+                              'operator, as the `return` expression, with two rebinding arguments [the later wins], in an arrayIndexOf '
+                              'call-back}; closed-form log / result / error (arguments run first - their log lines precede -, then the binding '
+                              'in force is called; a second plain call sees the same binding), Lean machine and the Python reference; plus, '
+                              'implementation only (host functions that write options[\'globals\'] are outside the Lean host): a host function '
+                              'as argument rebinds / unbinds / nulls the callee x script top level / script function / evaluate_expression with '
+                              'built-ins (x every built-in expression function name, without and with locals)')
+    cells = [c for c in rebind_cells() if not (c[0] == 'library' and c[1] == 'gset-lib')]
+    cases = [rebind_case(cell) for cell in cells]
+    resps = ctx.driver.batch([exec_request(prog, host, files) for prog, files, host, _ in cases])
+    for cell, (prog, files, host, want), resp in zip(cells, cases, resps):
+        impl = compare_program(ctx, 'rebind', st, prog, host, {'before:' + cell[0], 'action:' + cell[1], 'site:' + cell[2]}, False, resp, files=files)
+        witness_all(ctx, 'rebind', {'cell': cell, 'text': '\n'.join(progen.render(prog)), 'files': files_text(files), 'globals': host},
+                    check_rebind_outcome(impl, want))
+    for name, mode, before, after in rebind_host_cases():
+        st.case(['host', name, mode, before, after], nontrivial=True, tags=['host-function-rebinds', 'mode:' + mode, 'before:' + before, 'after:' + after])
+        witness_all(ctx, 'rebind-host', {'name': name, 'mode': mode, 'before': before, 'after': after}, oracle_rebind_host(name, mode, before, after))
+    st.exhaustive = True
+
+
+def stream_sidefx(ctx):
+    st = ctx.stream('sidefx', 'generated programs whose ARGUMENTS have side effects: the generator of `includes` + arguments that are calls of script '
+                              'functions (nested up to 2 deep; the called bodies log, assign, systemGlobalSet, include scripts that define fa, fb, '
+                              '... again) + script functions and top-level code that rebind function names and arrayNew with systemGlobalSet '
+                              '(another script function, a partial, arrayNew, null, a number): the callee of a call may be rebound while its '
+                              'arguments are evaluated, between two executions of one call site, inside call-backs; execute_script vs Lean '
+                              'machine vs the Python reference (arguments left to right, then the callee is looked up); every 5th program with '
+                              'arraySort (implementation and reference only); non-trivial = terminates without error and logs something')
+    rng = ctx.rng('sidefx')
+    cases = []
+    for i in range(ctx.scale(900, 15000)):
+        gen = NestGen(rng, allow_sort=(i % 5 == 4))
+        prog = gen.program()
+        cases.append((prog, gen.host(), gen.tags, gen.files, i % 5 != 4))
+    resps = iter(ctx.driver.batch([exec_request(prog, host, files) for prog, host, _, files, m in cases if m]))
+    for prog, host, tags, files, modelled in cases:
+        compare_program(ctx, 'sidefx', st, prog, host, tags, False, next(resps) if modelled else None, modelled=modelled, files=files)
+
+
 def streams(ctx):
     stream_handbuilt(ctx)
     stream_binding(ctx)
@@ -1798,9 +2329,12 @@ def streams(ctx):
     stream_hostglobals(ctx)
     stream_exprmode(ctx)
     stream_includescope(ctx)
+    stream_rebind(ctx)
+    stream_partialhist(ctx)
     stream_calls(ctx)
     stream_sort(ctx)
     stream_includes(ctx)
+    stream_sidefx(ctx)
 
 
 def disagreement_known(d, known):
@@ -1830,8 +2364,23 @@ def search(ctx):
         if bad:
             witness_all(ctx, 'include-scope', {'cell': cell}, bad)
             return
+    for cell in rebind_cells():
+        bad = check_rebind_cell(cell) if not (cell[0] == 'library' and cell[1] == 'gset-lib') else []
+        if bad:
+            witness_all(ctx, 'rebind', {'cell': cell}, bad)
+            return
+    for name, mode, before, after in rebind_host_cases():
+        bad = oracle_rebind_host(name, mode, before, after)
+        if bad:
+            witness_all(ctx, 'rebind-host', {'name': name, 'mode': mode, 'before': before, 'after': after}, bad)
+            return
+    for hist in [h for _, h in ph_directed()] + [ph_random(rng, True)[0] for _ in range(ctx.scale(3000, 30000))]:
+        bad = check_partial_history(hist)
+        if bad:
+            witness_all(ctx, 'partial-history', {'hist': hist}, bad)
+            return
     for i in range(ctx.scale(8000, 60000)):
-        gen = (IncludeGen if i % 3 == 2 else CallGen)(rng, allow_sort=(i % 4 == 0))
+        gen = (NestGen if i % 6 == 5 else IncludeGen if i % 3 == 2 else CallGen)(rng, allow_sort=(i % 4 == 0))
         prog = gen.program()
         host = gen.host()
         files = getattr(gen, 'files', None)
@@ -1861,6 +2410,12 @@ def replay(witness):
         bad = check_scope_cell(inp['cell'])
     elif kind == 'include-transparent':
         bad = oracle_include_transparent(inp['fprogs'], inp['url'], inp['globals'], inp['wrapper'])
+    elif kind == 'partial-history':
+        bad = check_partial_history(inp['hist'])
+    elif kind == 'rebind':
+        bad = check_rebind_cell(inp['cell'])
+    elif kind == 'rebind-host':
+        bad = oracle_rebind_host(inp['name'], inp['mode'], inp['before'], inp['after'])
     elif kind == 'handbuilt':
         impl = run_impl(inp['model'], inp['globals'])
         if oracle == 'no-host-exception':
@@ -1902,7 +2457,10 @@ LEVEL_TEXT = ('Theorems about the Lean mirror of runtime.py (evaluate_expression
               'parameters x arguments x call-path matrix, an exhaustive include-position x local-binding x global-state matrix, the '
               'definition line in every white-space spelling (exhaustive blank / no blank at each boundary, each boundary x tab, Unicode spaces, '
               'line continuation) and a third of all generated programs re-spelled at random, generated '
-              'programs with include statements in every scope and host-shadowing configurations against the compiled model, and an '
+              'programs with include statements in every scope and host-shadowing configurations, an exhaustive matrix of calls whose own '
+              'arguments rebind the callee (binding before x rebinding action x call site), generated programs with side-effecting '
+              'arguments and rebinding of function names, histories of partial applications used again after they served as the base of '
+              'other partials (aliasing families x sizes up to 1000) against the compiled model, and an '
               'independent Python reference of the convention plus closed-form and metamorphic oracles run on the implementation.')
 LEVEL_NOTE = ('Trusted: Lean kernel; the correspondence harness with its reference interpreter. The Lean host models 18 library functions; '
               'arraySort comparators and the expression-mode built-in table are checked on the implementation only (the lookup theorems hold '
